@@ -319,6 +319,43 @@ def run(tier, only=None):
                 for f in r['findings']:
                     view, cont, path = targets[r['idx']]
                     pending.append((kind, view, cont, path, f))
+    # (c') typed expect helpers: an opcode other than the expected one must be rejected with the opcode error carrying it
+    if not only:
+        from . import c02
+        from .. import mirdump
+        from ..mirsym import Prog, Exec
+        from ..inventory import Inventory
+        out, _dropped = mirdump.dump_items('framing_world', ['wow_world_messages', 'wow_world_base'], c02.items(), [], extra_rs=messages.TEMPLATES)
+        fprog = Prog(out)
+        finv = Inventory(fprog)
+        fex = Exec(fprog)
+        fex.max_paths = 200
+        fpending = []
+        nexp = 0
+        for e in c02.EXPS:
+            for side, pre in (('server', 'es_'), ('client', 'ec_')):
+                root = finv.local.get('c02_' + pre + e)
+                if root:
+                    try:
+                        c02.check_reader(ck, fex, root, e, side, 'expect', fpending)
+                        nexp += 1
+                    except Unsupported as x:
+                        ck.inconclusive.append('expect helper %s %s: %s' % (e, side, x))
+        tot['expect_helpers_checked'] = nexp
+        fpending = [p for p in fpending if p['kind'] == 'opcode']
+        cases = []
+        for i, p in enumerate(fpending):
+            p['rust'] = c02.rust_case(p)
+            cases.append((str(i), p['rust']))
+        outs = {}
+        if cases:
+            try:
+                outs = native.eval_cases('world', cases)
+            except Exception as x:
+                ck.inconclusive.append('native replay failed to build: %s' % str(x)[-300:])
+        for i, p in enumerate(fpending):
+            o = outs.get(str(i))
+            ck.violation(p['key'], '%s native=%r' % (p['what'], o), dict(p, native=o), confirmed=c02.confirms(p, o))
     by_kind = {}
     for kind, view, cont, path, f in pending:
         by_kind.setdefault(kind, []).append((view, cont, path, f))
@@ -352,7 +389,7 @@ def run(tier, only=None):
     ck.assume('an undeclared value is any value of the full wire width (upcast width for upcast members) outside the declared set: width aliases are included by construction')
     return ck.finish({'states': max(tot['sites_checked'] + tot['fixed'], 1), 'transitions': max(tot['queries'], 1), 'traces_validated_against_impl': len(pending),
                       'messages': tot['messages'], 'enum_members_found': tot['sites'], 'enum_members_checked': tot['sites_checked'], 'fixed_size_messages_checked': tot['fixed'],
-                      'opcode_dispatchers_checked': tot.get('dispatchers', 0), 'queries': tot['queries'], 'solver_s': round(tot['solver_s'], 1),
+                      'opcode_dispatchers_checked': tot.get('dispatchers', 0), 'expect_helpers_checked': tot.get('expect_helpers_checked', 0), 'queries': tot['queries'], 'solver_s': round(tot['solver_s'], 1),
                       'functions_encoded_count': len(fn_names), 'functions_encoded': sorted(fn_names)[:60],
                       'bounds': 'values: none (full wire width); hosts: the first covered shape that can host the undeclared value, array elements collapsed to one representative',
                       'rule': 'per enum member: all undeclared wire values at once; per fixed-size message: all u32 body sizes != N; per dispatcher: all u32 opcodes outside the defined set'},
